@@ -30,6 +30,7 @@ type hcase struct {
 	logKV   map[uint64][2]uint64 // key, value of every log entry
 	final   string               // "?" when unknown
 	smcheck string
+	mon     string
 	expBad  bool // hand-written negative case: both checkers must reject it
 	nev     int  // number of events when the case was recorded (-1 = not given)
 	synth   int  // log entries without an invocation in the history (invocation synthesized)
@@ -43,7 +44,7 @@ func parseCase(line string) (*hcase, error) {
 	if len(hf) < 2 || hf[1] != "HIST" {
 		return nil, fmt.Errorf("bad case header")
 	}
-	c := &hcase{id: hf[0], final: "?", smcheck: "ok", nev: -1, logKV: map[uint64][2]uint64{}}
+	c := &hcase{id: hf[0], final: "?", smcheck: "ok", mon: "ok", nev: -1, logKV: map[uint64][2]uint64{}}
 	for _, f := range hf[2:] {
 		k, v, _ := strings.Cut(f, "=")
 		switch k {
@@ -69,6 +70,8 @@ func parseCase(line string) (*hcase, error) {
 			c.final = v
 		case "smcheck":
 			c.smcheck = v
+		case "mon":
+			c.mon = v
 		case "expect":
 			c.expBad = v == "bad"
 		case "nev":
